@@ -1242,6 +1242,82 @@ fn backward_res_case(ctx: &mut Ctx, r: &mut Rng) {
     }
 }
 
+/// C07, car mixes: a train built by TrainSimBuilder from several car types — the coefficients of its resistance model
+/// must be the definitions over the car mix (bearing: the per-axle total; rolling and Davis-B: mass-weighted over the
+/// towed mass; drag area: the sum over cars), whatever the order of the types, and the first steps must report them
+fn builder_case(ctx: &mut Ctx, r: &mut Rng) {
+    use altrios_core::traits::Mass;
+    let Some(bu) = path_case(ctx, r, false, true) else { return; };
+    let k = r.usize(2, 5);
+    let names = ["Bulk", "Tank_Loaded", "Autorack", "Intermodal", "Manifest_Loaded", "Manifest_Empty"];
+    let mut rvs: Vec<RailVehicle> = vec![];
+    let mut n_cars: std::collections::HashMap<String, u32> = Default::default();
+    for i in 0..k {
+        let rv = RailVehicle {
+            car_type: names[i].into(),
+            length: m(*r.pick(&[15.24, 18.288, 20.4216, 16.1544])),
+            axle_count: *r.pick(&[4u8, 4, 6, 8]),
+            brake_count: 1,
+            mass_static_base: uc::KG * (r.range(20, 40) as f64 * 1000.0 + 0.3),
+            mass_freight: uc::KG * (r.range(0, 80) as f64 * 1000.7),
+            speed_max: mps(*r.pick(&[25.0, 30.0, 35.0])),
+            braking_ratio: uc::R * *r.pick(&[0.05, 0.1, 0.15]),
+            mass_rot_per_axle: uc::KG * *r.pick(&[1500.3, 1499.9, 1650.1]),
+            bearing_res_per_axle: uc::N * *r.pick(&[40.26, 80.0, 150.3, 178.1, 200.7]),
+            rolling_ratio: uc::R * *r.pick(&[0.0005, 0.00075, 0.001, 0.0013]),
+            davis_b: uc::SPM * *r.pick(&[0.0, 0.00001, 0.00003, 0.00002]),
+            cd_area: uc::M2 * *r.pick(&[2.13, 4.7, 6.55, 3.3, 5.1]),
+            curve_coeff_0: uc::R * 0.0,
+            curve_coeff_1: uc::R * 0.0,
+            curve_coeff_2: uc::R * 0.0,
+        };
+        n_cars.insert(rv.car_type.clone(), r.range(1, 9) as u32);
+        rvs.push(rv);
+    }
+    let per_car = r.chance(0.3);
+    let n_total: u32 = n_cars.values().sum();
+    let cd_vec: Option<Vec<si::Area>> = if per_car { Some((0..n_total).map(|_| uc::M2 * *r.pick(&[2.13, 4.7, 6.55])).collect()) } else { None };
+    let tc = TrainConfig { rail_vehicles: rvs.clone(), n_cars_by_type: n_cars.clone(), train_type: TrainType::Freight, train_length: None, train_mass: None, cd_area_vec: cd_vec.clone() };
+    let builder = TrainSimBuilder::new("mix".into(), tc, gen_train_consist(r), None, None, None);
+    let trace = SpeedTrace::new(vec![0.0, 1.0, 2.0, 3.0], vec![0.0, 0.5, 1.0, 1.5], None);
+    let input = json!({"kind": "builder_car_mix", "rail_vehicles": serde_json::to_value(&rvs).unwrap(), "n_cars_by_type": n_cars, "cd_area_vec": cd_vec.as_ref().map(|v| v.iter().map(|x| x.value).collect::<Vec<_>>())});
+    let built = guard(|| builder.make_set_speed_train_sim(&bu.net, &bu.route, trace, None));
+    let mut sim = match built {
+        Some(Ok(s)) => s,
+        Some(Err(e)) => { ctx.count("train.builder.err"); ctx.sample("train.builder.err", json!(format!("{:?}", e).chars().take(200).collect::<String>())); return; }
+        None => { ctx.count("train.builder.panic"); return; }
+    };
+    ctx.count("train.builder.cases");
+    ctx.count(&format!("train.builder.car_types.{}", k));
+    let nn = |rv: &RailVehicle| n_cars[&rv.car_type] as f64;
+    let mass = |rv: &RailVehicle| rv.mass().ok().flatten().map(|x| x.value).unwrap_or(f64::NAN);
+    let towed: f64 = rvs.iter().map(|rv| mass(rv) * nn(rv)).sum();
+    let want_bearing: f64 = rvs.iter().map(|rv| rv.bearing_res_per_axle.value * rv.axle_count as f64 * nn(rv)).sum();
+    let want_roll: f64 = rvs.iter().map(|rv| rv.rolling_ratio.value * mass(rv) * nn(rv)).sum::<f64>() / towed;
+    let want_db: f64 = rvs.iter().map(|rv| rv.davis_b.value * mass(rv) * nn(rv)).sum::<f64>() / towed;
+    let want_cd: f64 = match &cd_vec { Some(v) => v.iter().map(|x| x.value).sum(), None => rvs.iter().map(|rv| rv.cd_area.value * nn(rv)).sum() };
+    let v = serde_json::to_value(&sim.train_res).unwrap();
+    let sres = &v["Strap"];
+    let (bf, rr, db, cd) = (jf(sres, &["bearing", "force"]), jf(sres, &["rolling", "ratio"]), jf(sres, &["davis_b", "davis_b"]), jf(sres, &["aerodynamic", "cd_area"]));
+    let rel = |a: f64, b: f64| (a - b).abs() <= 1e-9 * a.abs().max(b.abs()) + 1e-12;
+    let mut chk = |clause: &str, ok: bool, d: String| { ctx.checked("C07", clause); if !ok { ctx.fail("C07", clause, "builder", d, input.clone()); } };
+    chk("bearing_is_per_axle_total", rel(bf, want_bearing), format!("bearing force of the built train {} N, per-axle total over the car mix {} N", bf, want_bearing));
+    chk("rolling_is_mass_weighted_over_car_mix", rel(rr, want_roll), format!("rolling ratio {} vs {} over the car mix", rr, want_roll));
+    chk("davis_b_is_mass_weighted_over_car_mix", rel(db, want_db), format!("davis_b {} vs {} over the car mix", db, want_db));
+    chk("drag_area_is_sum_over_cars", rel(cd, want_cd), format!("drag area {} vs {} over the cars", cd, want_cd));
+    // and the first steps report them
+    for i in 1..=2 {
+        if let Some(Ok(())) = guard(|| sim.step()) {
+            let st = sim.state;
+            let w = st.weight_static.value;
+            let id = format!("builder.step{}", i);
+            let mut chk2 = |clause: &str, ok: bool, d: String| { ctx.checked("C07", clause); if !ok { ctx.fail("C07", clause, &id, d, input.clone()); } };
+            chk2("bearing", st.res_bearing.value == bf, format!("res_bearing {} != per-axle total {}", st.res_bearing.value, bf));
+            chk2("rolling", close(st.res_rolling.value, rr * w, w), format!("res_rolling {} != {}", st.res_rolling.value, rr * w));
+        }
+    }
+}
+
 pub fn run(ctx: &mut Ctx, r: &mut Rng, tier: &str) {
     let (np, nbad, nss, nsl, nidx, steps, slsteps) = if tier == "thorough" { (400, 200, 60, 60, 4000, 400, 3000) } else { (40, 20, 6, 12, 400, 150, 1500) };
     for i in 0..np { let mut rr = r.fork(); let _ = path_case(ctx, &mut rr, i % 2 == 0, false); }
@@ -1249,6 +1325,7 @@ pub fn run(ctx: &mut Ctx, r: &mut Rng, tier: &str) {
     for _ in 0..nidx { let mut rr = r.fork(); calc_idx_case(ctx, &mut rr); }
     for _ in 0..nidx { let mut rr = r.fork(); locate_case(ctx, &mut rr); }
     for _ in 0..(if tier == "thorough" { 300 } else { 40 }) { let mut rr = r.fork(); backward_res_case(ctx, &mut rr); }
+    for _ in 0..(if tier == "thorough" { 300 } else { 40 }) { let mut rr = r.fork(); builder_case(ctx, &mut rr); }
     for _ in 0..nss { let mut rr = r.fork(); set_speed_case(ctx, &mut rr, steps); }
     for _ in 0..nsl { let mut rr = r.fork(); speed_limit_case(ctx, &mut rr, slsteps); }
     for _ in 0..(if tier == "thorough" { 80 } else { 10 }) { let mut rr = r.fork(); timed_path_case(ctx, &mut rr); }
